@@ -149,7 +149,11 @@ class Gen:
             choices += ["while"]
         if "calls" in self.feat and helpers:
             choices += ["callstmt"]
+        if "condbound" in self.feat and env["ints"]:
+            choices += ["condassign"]
         k = r.choice(choices)
+        if k == "condassign":
+            return self.cond_assign(env, r.choice(["u", "w"]))
         if k == "assign":
             e = self.expr(env, 0, helpers)
             name = r.choice(["a", "b", "c", "d", "e"])
@@ -214,6 +218,16 @@ class Gen:
         self.join(env, e1, e2)
         return ("if", c, then, els)
 
+    def cond_assign(self, env, name):
+        r = self.rng
+        p = r.choice(env["ints"])
+        cond = r.choice([("cmp", ">=", ("v", p), ("v", p)), ("cmp", "==", ("v", p), ("v", p)),
+                         ("cmp", "==", ("bin", "*", ("v", p), ("c", 0)), ("c", 0))])
+        e = self.expr(env, 0, ())
+        if name not in env["ints"]:
+            env["ints"].append(name)
+        return ("if", cond, [("assign", name, e)], [])
+
     @staticmethod
     def fork(env):
         return {"ints": list(env["ints"]), "objs": list(env["objs"]), "lists": list(env["lists"]),
@@ -248,6 +262,12 @@ class Gen:
             env["listlen"]["l"] = n0
             body0.append(("newnest", "n", self.expr(env, 1, ()), "l"))
             env["nests"]["n"] = [1, n0]
+        cond_var = None
+        if "condbound" in self.feat and env["ints"]:
+            # a local the compiler cannot prove bound where it is read (LOAD_FAST_CHECK): its only
+            # assignment sits under a condition that is always true at run time
+            body0.append(self.cond_assign(env, "u"))
+            cond_var = "u"
         shadow_ret = None
         if "shadowing" in self.feat:
             # the same local name is defined in caller and callee; in the entry functions its use stays
@@ -263,7 +283,12 @@ class Gen:
                         env["ints"].append("b")
                     shadow_ret = ("bin", "+", ("v", "a"), ("v", "b"))
         body = body0 + self.block(env, n_stmts, 0, helpers, True)
-        if shadow_ret is not None and "a" in env["ints"] and "b" in env["ints"] and r.random() < 0.7:
+        if cond_var is not None and cond_var in env["ints"] and r.random() < 0.7:
+            ret = ("v", cond_var)
+            if r.random() < 0.5:
+                ret = ("bin", r.choice(BINOPS), ret, self.expr(env, 1, helpers))
+            body.append(("return", ret))
+        elif shadow_ret is not None and "a" in env["ints"] and "b" in env["ints"] and r.random() < 0.7:
             body.append(("return", shadow_ret))
         elif env["nests"] and r.random() < 0.6:
             nname = r.choice(sorted(env["nests"]))
@@ -277,7 +302,7 @@ class Gen:
         return {"name": name, "params": params, "globals": gdecl, "body": body}
 
 
-ALL_FEATURES = ["branch", "globals", "attrs", "lists", "calls", "early", "alias", "andor", "nested", "shadowing"]
+ALL_FEATURES = ["branch", "globals", "attrs", "lists", "calls", "early", "alias", "andor", "nested", "shadowing", "condbound"]
 
 
 def gen_case(rng, features=None, size=None):
